@@ -11,6 +11,9 @@ pub enum Reply {
     Msg(M),
     None,
     BusError,
+    /// only in scripts: "reply with exactly the message that was just sent" (a line echo); the scripted bus
+    /// resolves it to Msg(..) before anything is judged
+    Echo,
 }
 
 impl Reply {
@@ -19,6 +22,7 @@ impl Reply {
             Reply::Msg(m) => m.short(),
             Reply::None => "no reply".into(),
             Reply::BusError => "BUS ERROR".into(),
+            Reply::Echo => "ECHO".into(),
         }
     }
 }
